@@ -113,7 +113,7 @@ LEAVES = [
     "**s**", "`c`", "``", "a|b", "-|-", "|a|b|", "|-|-|", ":-:|-:", "1|2", "a\\|b|c", "|", "|-", "-|", ":-", "a  ", "a\\",
     "&amp;", "&#35;", "\\*x", "<http://a.b>", "<a@b.c>", "~~s~~", "a_b_c", "\"q\" 'r'", "(c) ... --", "http://x.y",
     "  a", "   a", " - a", "  - b", "   - c", "    - d", "  1. x", "   > z", "\\", "`", "* * a", "- # h", "> ```", "- ```",
-    ">     c", "-\ta", ">\ta", "1.\ta", "[a]: /u \"t", "[a]: <u", "[", "]", "![", "](", "\"", "'", "a\u00a0", "\u00a0a", "\x0bx",
+    ">     c", "². a", "①) a", "٣. a", "1２. a", "-\ta", ">\ta", "1.\ta", "[a]: /u \"t", "[a]: <u", "[", "]", "![", "](", "\"", "'", "a\u00a0", "\u00a0a", "\x0bx",
 ]
 CONTAINER_PREFIXES = [
     "> ", ">", " > ", "- ", "  ", "    ", "   ", "1. ", "* ", "+ ", "> - ", "- > ", "> > ", ">> ", "   - ", "10) ",
@@ -476,17 +476,44 @@ def block_seq(d: D, depth: int, maxdepth: int, tabs: bool, maxblocks: int = 4) -
     return out
 
 
+LOOKALIKE = {
+    "digit": "²¹⁵①⒈٣１߁৪⑴",
+    " ": "\u00a0\u2003\u3000\x0b\x0c\u1680\u2028\x85\x1c\u200b",
+    "\n": "\x0b\x0c\x85\u2028\u2029\x1c\x1d\x1e",
+    "alpha": "ａÀаıİſK",
+    "-": "‐−–", "*": "∗＊", "#": "＃", ">": "＞", "`": "｀", ".": "．。", ")": "）", "|": "｜", "[": "［", "]": "］", ":": "：",
+    "<": "＜", "&": "＆", "\\": "＼", "~": "～", "=": "＝", "_": "＿", '"': "＂“", "'": "＇’", "+": "＋", "(": "（", ";": "；", "/": "／",
+}
+
+
+def lookalike(d: D, src: str) -> str:
+    """Replace one structural ASCII character by a Unicode look-alike (str.isdigit / isspace /
+    isalnum / strip / lower are all broader than their ASCII namesakes)."""
+    if not src:
+        return src
+    for _ in range(4):
+        i = d.i(0, len(src) - 1)
+        ch = src[i]
+        key = "digit" if ch in "0123456789" else ("alpha" if ch.isascii() and ch.isalpha() else ch)
+        alts = LOOKALIKE.get(key)
+        if alts:
+            return src[:i] + d.pick(alts) + src[i + 1 :]
+    return src
+
+
 def perturb(d: D, src: str, tabs: bool = True) -> str:
     k = d.weighted(
         [
             (40, "none"), (12, "truncate"), (6, "dropline"), (4, "dupline"), (4, "swap"), (8, "hot"), (6, "nofinal"),
-            (4, "tabify" if tabs else "none"), (3, "unprefix"), (3, "crlf"), (2, "nul"), (3, "hotline"),
+            (4, "tabify" if tabs else "none"), (3, "unprefix"), (3, "crlf"), (2, "nul"), (3, "hotline"), (8, "lookalike"),
         ]
     )
     if k == "none" or not src:
         return src
     if k == "truncate":
         return src[: d.i(0, len(src))]
+    if k == "lookalike":
+        return lookalike(d, src)
     lines = src.split("\n")
     if k == "dropline":
         i = d.i(0, len(lines) - 1)
